@@ -11,9 +11,12 @@ PROPS = {
         kani=['c26_varint'],
         verus=['c26_page'],
         pairs={},
-        native={},
+        native={'leaf_insert_at': ['c26_multimap_quick'], 'delete_from_leaf': ['c26_multimap_quick'], 'leaf_lower_bound': ['c26_multimap_quick'],
+                'internal_child_for_key': ['c26_multimap_quick'], 'leaf_cell_key_and_payload': ['c26_multimap_quick']},
         native_all=['c26_multimap_quick'],
-        level_text='TBD', level_note='TBD', technique='TBD', design_ref='DESIGN.md §4 C26',
+        level_text='Proof, single-page scope, for any cell count, key length and page content satisfying the page invariant: Verus proves from the real bodies of the slotted index page (byte helpers, varint_u32_len, write_varint_u32, Page::{new, kind, init_leaf, cell_count, cell_content_begin, slots_off, slot_get, slot_set, free_space, set_cell_content_begin, set_cell_count, set_right_sibling, right_sibling, leftmost_child, shift_slots_right, shift_slots_left, leaf_cell_key_and_payload, internal_cell_key_and_right_child, leaf_lower_bound, internal_child_for_key, leaf_insert_at, delete_from_leaf}) that a leaf read through the accessors is the abstract sequence of (key, payload) entries; that leaf_lower_bound returns the first position whose key is >= the target and internal_child_for_key the child in front of the first separator >= the target (so a run of equal keys is entered where it starts); that leaf_insert_at inserts exactly the given entry at the given position of the whole abstract sequence, keeps the page invariant, succeeds exactly when the cell and its slot fit, and otherwise leaves the page bytes unchanged; that delete_from_leaf removes exactly the entry at the given position; and, as lemmas over those contracts, that inserting at the lower-bound position keeps keys in order with the new entry in front of all equal keys (a lookup returns the most recently inserted payload) and that removal keeps order. Kani proves on the compiled crate that the varint reader inverts the writer for every u32, never reads past five bytes and depends only on the bytes it consumed.',
+        level_note="Not decided: everything that spans pages - leaf and internal splits, separator choice, insert_into_parent, build_from_sorted_entries, the sibling walk of BTree::delete and of BTreeCursor, rebuild_leaf/rebuild_internal (iterator adapters), internal_insert_at; these are inline with pager I/O in BTree::{insert, delete, cursor_lower_bound} and are outside both verifiers' reach (measured). They are exercised only by the native witness generator c26_multimap_* (random insert/delete/lookup sequences over small key alphabets against a reference multimap: 3 seeds x 400 steps quick, 40 x 1500 thorough), which is a bounded search, not a proof, and is run when a unit is undecided or an obligation fails. The page invariant (leaf_wf / internal_wf, keys in order) is a precondition: nothing is claimed about corrupt pages. Trusted: std slice comparison is lexicographic (v_bytes_lt/le), copy_within/copy_from_slice/fill/sub-slice wrappers, read_varint_u32 characterised by three axioms (each discharged by a Kani harness), to/from_le_bytes.",
+        technique='contract-based deductive verification (Verus: slotted-page operations proved against an abstract sequence view with whole-view postconditions; Kani: varint codec, full u32 domain)', design_ref='DESIGN.md §4 C26',
     ),
     'C27': dict(
         title='Index key encoding preserves order and equality',
